@@ -564,11 +564,12 @@ class no_abstract:
     """oracle-side computations never introduce abstraction variables"""
 
     def __enter__(self):
-        self.prev = ABSTRACT[0]
+        self.prev = (ABSTRACT[0], FORK[0])
         ABSTRACT[0] = False
+        FORK[0] = False
 
     def __exit__(self, *a):
-        ABSTRACT[0] = self.prev
+        ABSTRACT[0], FORK[0] = self.prev
 
 
 def reset_path():
@@ -644,7 +645,7 @@ def _pydiv(a, b):
     if b == 0:
         if a == 0 or math.isnan(a):
             return math.nan
-        return math.copysign(math.inf, a) * (math.copysign(1.0, b))
+        return math.copysign(math.inf, a)      # convention of the model: every zero is +0
     return a / b
 
 
@@ -910,7 +911,7 @@ def exp(a):
 def log(a):
     if _conc(a):
         if LOG_MODE[0]:
-            return LogV(float(a)) if a >= 0 else math.nan
+            return LogV(abs(float(a)) if a == 0 else float(a)) if a >= 0 else math.nan
         a = float(a)
         if math.isnan(a) or a < 0:
             return math.nan
